@@ -17,9 +17,10 @@ from harness.recipes import ProducerError
 LEVEL = "fault_enumeration"
 RULES = {
     "asgi": "Hypothesis on a virtual-time event loop: StreamResponse / SendEventResponse (bare and inside request_response), producer "
-    "of 0..6 items with per-item delays, send delay, ping interval and disconnect instant all drawn from a 0.25 grid (ties included), "
-    "optional producer exception at step k, send() swallowing or raising after the disconnect; non-trivial = a disconnect strictly "
-    "inside the stream, or a producer exception",
+    "of 0..6 items with per-item delays, send delay (up to 1.5 s, i.e. also slower than the ping), ping interval and disconnect instant all "
+    "drawn from a 0.25 grid (ties included), optional producer exception at step k, send() swallowing or raising after the disconnect; in a "
+    "third of the cases one or two of: producer object without aclose, cleanup code that awaits, an event without fields, the server "
+    "cancelling the call instead of a disconnect; non-trivial = a disconnect or cancellation strictly inside the stream, or a producer exception",
     "asgi_grid": "exhaustive: every disconnect instant on the 0.25 grid from 0 to the end of a fixed 4-item scenario x {stream, sse} x "
     "{send swallows, send raises} x {producer fast, slow, raising}",
     "wsgi_sse": "exhaustive (shortest first): every feasible schedule over {P producer step, C consume, c consume issued while nothing "
@@ -29,6 +30,28 @@ RULES = {
     "plus schedules in which the consumer stalls for five ping intervals (S) while the producer is ahead",
     "wsgi_sse_long": "Hypothesis: schedules up to length 12",
     "wsgi_stream": "exhaustive: WSGI StreamResponse with producers of 0..4 items, raising/finishing at every step, closed by the server after every k items",
+    "wsgi_sse_cleanup": "every schedule again with a producer whose cleanup code (finally) takes 50 ms, against the 30 s ping interval",
+    "wsgi_pool": "9/10/12 blocked event streams saturate the shared relay pool; one more is opened, consumed 0/1/3 items and closed",
+    "wsgi_sources": "exhaustive: WSGI SendEventResponse / StreamResponse (bare and returned from a request_response view) over producers that are "
+    "not generators (list, tuple, plain iterator - no close()) and over generators (finishing or raising at the end), 0..4 items, an event "
+    "without any field at every position, consumed completely or closed by the server after every k chunks; free-running producers under a "
+    "10 s watchdog (confirmed with 30 s); plus a StreamResponse producer that never ends (cut off by the harness after 3000 steps) closed "
+    "after 0/1/3 chunks: reaching the cut-off means an endless producer would never have been released",
+    "wsgi_latency": "wall-clock: close() of a WSGI event stream must come back with the producer's next step (+ the producer's own cleanup "
+    "time of 0 / 50 / 200 ms + 0.5 s tolerance) at ping intervals 30 s / 3 s / 0.5 s, with the producer mid-step or ahead of the client; a "
+    "late measurement is repeated three times and only counts if all four are late",
+    "asgi_sources": "exhaustive grid: the producer is an AsyncIterable object without aclose() (not a generator), or the event stream "
+    "contains an event without any field at position 0/2/3; x 4 response kinds x 4 delay patterns x send delay x disconnect instants x "
+    "send swallows/raises",
+    "asgi_cleanup": "the asgi_grid scenarios (4 kinds) with a producer whose finally awaits 0.75 virtual seconds (thorough: also 0.25, 2.0), plus a coarser grid with 5 s of cleanup (disconnect and cancellation): "
+    "bounds are extended by exactly that time, no task may be left (event streams: after the producer's own cleanup time has passed)",
+    "asgi_cancel": "exhaustive grid: instead of a disconnect the server cancels the application task at every instant of the 0.25 grid "
+    "(4 kinds x 5 delay patterns incl. raising producers x send delay 0/0.25/0.5 x cleanup 0/0.5 x generator / plain iterator): the call "
+    "ends (CancelledError, a normal return or the producer's own exception) within the same bounds, the producer is closed once, no task is left",
+    "asgi_slow_client": "exhaustive grid: the client needs 0.75 / 1.5 / 2.5 s per event with ping intervals 0.5 / 1.0 (send slower than "
+    "ping) and the producer ahead; nothing may be lost without a disconnect",
+    "asgi_endless": "a producer that never ends and never waits (3000 steps without delay stand for it), client reading at 0.25 / 0.5 s per "
+    "chunk and leaving / the server cancelling at 0, 0.5, 1, 3: a producer driven to the cut-off means the call would never have returned",
 }
 ASSUMPTIONS = [
     "the schedule is owned at the granularity of producer step / consumer step / close; interleavings inside a queue hand-off are "
@@ -36,6 +59,13 @@ ASSUMPTIONS = [
     "ASGI runs use asyncio's FIFO ready-queue semantics on a deterministic virtual-time loop",
     "when the harness makes send() raise after the disconnect the call may end with that injected OSError",
     "a hang is a watchdog expiry of 5 s (normal latency < 50 ms), confirmed by a second run with a 20 s watchdog",
+    "an ASGI server 'closes the response' by cancelling the application task; a call that ends with CancelledError, returns or raises "
+    "the producer's own exception within the bound has terminated",
+    "a producer may be any (Async)Iterable: objects without close()/aclose() are judged on termination and delivery only; an event "
+    "without fields is a legitimate event and does not end the stream",
+    "cleanup code that awaits is run to its end by an awaited aclose(); for ASGI event streams (relay task cancelled, not awaited) the "
+    "'cleanup already scheduled on the event loop' is given the producer's own cleanup time before tasks are counted",
+    "wsgi_latency tolerates 0.5 s of scheduling noise and needs four late measurements in a row before it reports",
 ]
 
 EPS = 1e-9
@@ -56,28 +86,79 @@ def oracle_asgi(case) -> Result:
     ping = case.get("ping", 1.0)
     info = {"entered": 0, "finalized": 0, "steps": [], "yielded": [], "tasks_left": [], "finalized_at": None}
 
-    async def producer():
+    source = case.get("source", "gen")  # "gen": async generator; "iter": async iterator object without aclose()
+    cleanup = float(case.get("cleanup") or 0.0)  # virtual seconds the producer's cleanup code (its finally) awaits
+    blank_at = case.get("blank_at")  # (event streams) item k is an event without any field
+    cancel_at = case.get("cancel_at")  # the server cancels the application task at this instant (no disconnect)
+    info["completed"] = False
+    info["cleanup_done"] = 0
+
+    async def step(i):
+        """One producer step; returns the item, or None at the end of the stream."""
+        loop = asyncio.get_running_loop()
+        begin = loop.time()
+        st_ = [begin, None]
+        info["steps"].append(st_)
+        d = delays[i] if i < len(delays) else 0
+        if d:
+            await asyncio.sleep(d)
+        st_[1] = loop.time()
+        if raise_at is not None and i == raise_at:
+            raise ProducerError(f"producer raised at step {i}")
+        if i == n:
+            info["completed"] = True
+            return None
+        if "sse" in kind:
+            item = {} if i == blank_at else {"data": f"item-{i}", "id": str(i)}
+        else:
+            item = b"item-%d;" % i
+        if not ("sse" in kind and i == blank_at):
+            info["yielded"].append(i)
+        return item
+
+    async def gen_producer():
         loop = asyncio.get_running_loop()
         info["entered"] += 1
         try:
             for i in range(n + 1):
-                begin = loop.time()
-                step = [begin, None]
-                info["steps"].append(step)
-                d = delays[i] if i < len(delays) else 0
-                if d:
-                    await asyncio.sleep(d)
-                step[1] = loop.time()
-                if raise_at is not None and i == raise_at:
-                    raise ProducerError(f"producer raised at step {i}")
-                if i == n:
+                item = await step(i)
+                if item is None:
                     return
-                item = {"data": f"item-{i}", "id": str(i)} if "sse" in kind else b"item-%d;" % i
-                info["yielded"].append(i)
                 yield item
         finally:
             info["finalized"] += 1
             info["finalized_at"] = loop.time()
+            if cleanup:
+                await asyncio.sleep(cleanup)
+                info["cleanup_done"] += 1
+
+    class IterProducer:
+        """A legitimate AsyncIterable that is not a generator: no aclose(), no cleanup code."""
+
+        def __init__(self):
+            self.i = 0
+            self.over = False
+
+        def __aiter__(self):
+            return self
+
+        async def __anext__(self):
+            if self.over:
+                raise StopAsyncIteration
+            i = self.i
+            self.i += 1
+            try:
+                item = await step(i)
+            except ProducerError:
+                self.over = True
+                raise
+            if item is None:
+                self.over = True
+                raise StopAsyncIteration
+            return item
+
+    def producer():
+        return IterProducer() if source == "iter" else gen_producer()
 
     def make_response():
         if "sse" in kind:
@@ -93,15 +174,47 @@ def oracle_asgi(case) -> Result:
 
         else:
             app = make_response()
-        run = await gw.run_asgi(
-            app,
-            gw.make_scope(gw.areq()),
-            disconnect_at=D,
-            send_raises_after_disconnect=case.get("send_raises", False),
-            send_delay=send_delay,
+        box = {}
+
+        def on_send(run_, _msg):
+            box["run"] = run_
+
+        call = asyncio.ensure_future(
+            gw.run_asgi(
+                app,
+                gw.make_scope(gw.areq()),
+                disconnect_at=D,
+                send_raises_after_disconnect=case.get("send_raises", False),
+                send_delay=send_delay,
+                on_send=on_send,
+            )
         )
+        loop = asyncio.get_running_loop()
+        if cancel_at is not None:
+            # the server gives up on the application task (shutdown, its own timeout, a lost connection)
+            def _cancel():
+                if not call.done():
+                    info["cancelled_at"] = loop.time()
+                    call.cancel()
+
+            loop.call_later(cancel_at, _cancel)
+        try:
+            run = await call
+        except asyncio.CancelledError:
+            if info.get("cancelled_at") is None:
+                raise
+            run = box.get("run") or gw.AsgiRun()
+            run.exc = None
+            run.returned_at = loop.time()
+            info["call_cancelled"] = True
         for _ in range(10):
             await asyncio.sleep(0)
+        if cleanup and "sse" in kind:
+            # an event stream's relay task is cancelled, not awaited: the producer's own cleanup code is the "cleanup
+            # already scheduled on the event loop"; give it the time the producer itself asked for
+            await asyncio.sleep(cleanup + 0.125)
+            for _ in range(10):
+                await asyncio.sleep(0)
         cur = asyncio.current_task()
         info["tasks_left"] = [repr(t) for t in asyncio.all_tasks() if t is not cur and not t.done()]
         # snapshot now: the harness's own loop shutdown (shutdown_asyncgens) would close a leaked producer
@@ -130,23 +243,34 @@ def oracle_asgi(case) -> Result:
     # protocol prefix
     if run.errors:
         r.fail(f"C06:asgi:{kind}:protocol:{run.errors[0][0]}", f"{ctx}: {run.errors[:3]!r}")
-    # (b) return time
+    # (b) return time, counted from the instant T at which the client went away or the server cancelled the call
     disconnected_mid = D is not None and run.disconnected_at is not None and R is not None and run.disconnected_at <= R
-    if disconnected_mid:
+    C = info.get("cancelled_at")
+    T = D if disconnected_mid else C
+    if T is not None and R is not None:
+        what = "disconnected" if disconnected_mid else "cancelled by the server"
         if "sse" in kind:
             # after the disconnect: the send in flight, at most one wait of one ping interval, the send of
-            # what that wait produced and the final body event (send time is the server's, not the app's)
-            bound = D + ping + 3 * send_delay
+            # what that wait produced and the final body event (send time is the server's, not the app's);
+            # a cancelled call additionally runs the producer's cleanup code on its way out
+            bound = T + ping + 3 * send_delay + (cleanup if C is not None else 0.0)
             if R > bound + EPS:
-                r.fail(f"C06:asgi:{kind}:late-return", f"{ctx}: disconnected at {D}, call returned at {R} > D + ping + 3*send_delay = {bound}")
+                r.fail(f"C06:asgi:{kind}:late-return", f"{ctx}: {what} at {T}, call returned at {R} > T + ping + 3*send_delay (+ cleanup) = {bound}")
         else:
-            after = [s for s in info["steps"] if s[0] > D + EPS]
+            after = [s for s in info["steps"] if s[0] > T + EPS]
             if len(after) > 1:
-                r.fail(f"C06:asgi:{kind}:steps-after-disconnect", f"{ctx}: {len(after)} producer steps began after the disconnect at {D}: {info['steps']!r}")
+                r.fail(f"C06:asgi:{kind}:steps-after-disconnect", f"{ctx}: {len(after)} producer steps began after the call was {what} at {T}: {info['steps'][:12]!r}")
             ends = [s[1] for s in info["steps"] if s[1] is not None]
-            bound = max([D] + ends) + 2 * send_delay
+            bound = max([T] + ends) + 2 * send_delay + cleanup
             if R > bound + EPS:
-                r.fail(f"C06:asgi:{kind}:late-return", f"{ctx}: call returned at {R}, bound {bound}; steps {info['steps']!r}")
+                r.fail(f"C06:asgi:{kind}:late-return", f"{ctx}: {what} at {T}, call returned at {R}, bound {bound}; steps {info['steps'][:12]!r}")
+    if case.get("endless") and T is not None and info["completed"]:
+        # the producer stands for one that never ends (it never waits either): only the harness's cut-off stopped it
+        r.fail(
+            f"C06:asgi:{kind}:runaway-producer",
+            f"{ctx}: the producer was driven through all of its {n} steps (the harness's cut-off for an endless producer) although the call was "
+            f"{'disconnected' if disconnected_mid else 'cancelled'} at {T}; {len(run.chunks)} chunks had been delivered",
+        )
     # (c) cleanup
     entered, finalized = info["snap"]
     if entered > 1:
@@ -164,6 +288,8 @@ def oracle_asgi(case) -> Result:
         for c in run.chunks:
             if c.startswith(b": ping") or c == b"":
                 continue
+            if blank_at is not None and c.strip(b"\r\n") == b"":
+                continue  # the event without fields: a bare event terminator, dispatches nothing
             text = c.decode()
             ids = [ln[4:] for ln in text.split("\n") if ln.startswith("id: ")]
             datas = [ln[6:] for ln in text.split("\n") if ln.startswith("data: ")]
@@ -176,12 +302,16 @@ def oracle_asgi(case) -> Result:
         got = [int(x[5:]) for x in body.decode().split(";") if x]
     if got != info["yielded"][: len(got)]:
         r.fail(f"C06:asgi:{kind}:delivery-order", f"{ctx}: delivered {got!r}, yielded {info['yielded']!r}")
-    if D is None and run.exc is None and got != info["yielded"]:
+    undisturbed = D is None and C is None and run.exc is None
+    if undisturbed and got != info["yielded"]:
         r.fail(f"C06:asgi:{kind}:lost-items", f"{ctx}: delivered {got!r}, yielded {info['yielded']!r} without any disconnect")
-    if D is None and run.exc is None and not run.complete:
+    if undisturbed and not run.complete:
         r.fail(f"C06:asgi:{kind}:incomplete", f"{ctx}: no final body event")
+    if undisturbed and raise_at is None and not info["completed"]:
+        # nobody left and nothing failed, yet the producer was stopped before it had finished: whatever it still had to say is lost
+        r.fail(f"C06:asgi:{kind}:producer-cut-short", f"{ctx}: the call returned at {R} without a disconnect, but the producer was closed before its end; delivered {got!r}")
     _classify_asgi(r, case, run)
-    r.note = {"returned_at": R, "delivered": got, "finalized_at": info["finalized_at"]}
+    r.note = {"returned_at": R, "delivered": got, "finalized_at": info["finalized_at"], "call_cancelled": bool(info.get("call_cancelled"))}
     return r
 
 
@@ -203,6 +333,20 @@ def _classify_asgi(r, case, run):
         r.label("send-raises")
     if D is not None and any(abs(D - t) < EPS for t in _cum(case["delays"])):
         r.label("tie-with-producer-step")
+    if case.get("cancel_at") is not None:
+        r.label("server-cancels-call")
+        if 0 < case["cancel_at"] < total + case.get("send_delay", 0) * (case["items"] + 1) + EPS:
+            r.nontrivial = True
+    if case.get("source", "gen") != "gen":
+        r.label(f"source={case['source']}")
+    if case.get("cleanup"):
+        r.label("slow-producer-cleanup")
+    if case.get("blank_at") is not None:
+        r.label("event-without-fields")
+    if case.get("endless"):
+        r.label("endless-producer")
+    if case.get("send_delay", 0) > case.get("ping", 1.0):
+        r.label("client-slower-than-ping")
 
 
 def _cum(xs):
@@ -407,6 +551,313 @@ def oracle_wsgi_pool(case) -> Result:
     return r
 
 
+# ------------------------------------------------------------------------------------------
+# WSGI responses over producers that are not generators, events without fields, responses returned from a view
+
+
+def _recording_pool():
+    from baize.concurrency import ThreadPoolExecutor
+
+    futures = []
+
+    class Pool(ThreadPoolExecutor):
+        def submit(self, *a, **kw):  # type: ignore[no-untyped-def]
+            f = super().submit(*a, **kw)
+            futures.append(f)
+            return f
+
+    return Pool(max_workers=2, thread_name_prefix="verif_c06_"), futures
+
+
+def _sources_once(case, timeout):
+    n, blank_at, end = case["items"], case.get("blank_at"), case.get("end", "finish")
+    sse = case["resp"] == "sse"
+    info = {"entered": 0, "finalized": 0, "made": 0}
+
+    def item(i):
+        if sse:
+            return {} if i == blank_at else {"id": str(i), "data": f"event-{i}"}
+        return b"item-%d;" % i
+
+    def gen():
+        info["entered"] += 1
+        try:
+            for i in range(n):
+                info["made"] += 1
+                yield item(i)
+            if end == "raise":
+                raise ProducerError("producer raised at the end")
+        finally:
+            info["finalized"] += 1
+
+    src = case["source"]
+    items = [item(i) for i in range(n)]
+    iterable = {"list": lambda: items, "tuple": lambda: tuple(items), "iter": lambda: iter(items), "gen": gen}[src]()
+    pool, futures = _recording_pool()
+    if sse:
+        cls = type("SSE", (W.SendEventResponse,), {"thread_pool": pool})
+        resp = cls(iterable, ping_interval=30.0)
+    else:
+        resp = W.StreamResponse(iterable)
+    app = resp
+    if case.get("view"):
+
+        @W.request_response
+        def app(request):
+            return resp
+
+    kind, run = _with_watchdog(lambda: gw.run_wsgi(app, gw.make_environ(gw.areq()), close_after=case["close_after"]), timeout)
+    deadline = time.monotonic() + (2.0 if kind != "hang" else 0.2)
+    while time.monotonic() < deadline and any(not f.done() for f in futures):
+        time.sleep(0.005)
+    undone = sum(1 for f in futures if not f.done())
+    pool.shutdown(wait=False)
+    return kind, run, undone, dict(info)
+
+
+_EVENT_RE = None
+_HANG_CONFIRMED = []
+_SOURCE_HANGS = []
+_LATENCY_HANGS = []
+
+
+def oracle_wsgi_sources(case) -> Result:
+    import re
+
+    global _EVENT_RE
+    if _EVENT_RE is None:
+        _EVENT_RE = re.compile(rb"id: (\d+)\ndata: event-(\d+)\n\n")
+    r = Result()
+    ctx = f"{case!r}"
+    n, blank_at, end, close_after = case["items"], case.get("blank_at"), case.get("end", "finish"), case["close_after"]
+    sse = case["resp"] == "sse"
+    kind, run, undone, info = _sources_once(case, 3.0 if _HANG_CONFIRMED else 10.0)
+    if kind == "hang" and not _HANG_CONFIRMED:
+        # a loaded machine must not fabricate a violation: confirm with a long watchdog (once a hang has been
+        # confirmed in this run the verdict stands; later expiries only add cases to the same bucket, cheaply)
+        kind, run, undone, info = _sources_once(case, 30.0)
+        r.label("watchdog-retry")
+        if kind == "hang":
+            _HANG_CONFIRMED.append(True)
+    tag = f"C06:wsgi-src:{case['resp']}"
+    if kind == "hang":
+        _SOURCE_HANGS.append(1)
+        r.fail(f"{tag}:hang", f"{ctx}: the server's iteration / close() did not come back within 30 s (producer made {info['made']} items)")
+        return r
+    if kind == "exc":
+        raise core.HarnessError(f"gateway raised {run!r}")
+    if run.exc is not None and not (isinstance(run.exc, ProducerError) and end == "raise"):
+        r.fail(f"{tag}:raised:{type(run.exc).__name__}", f"{ctx}: {run.exc!r}")
+    if run.errors:
+        r.fail(f"{tag}:protocol:{run.errors[0][0]}", f"{ctx}: {run.errors[:3]!r}")
+    # what the server must have received: the first `close_after` chunks (all of them when it never closes early)
+    taken = n if close_after is None else min(close_after, n)
+    expected = [i for i in range(taken) if not (sse and i == blank_at)]
+    body = run.body
+    if sse:
+        got = []
+        for m in _EVENT_RE.finditer(body):
+            if m.group(1) != m.group(2):
+                r.fail(f"{tag}:garbled-event", f"{ctx}: {m.group(0)!r}")
+            got.append(int(m.group(1)))
+        rest = _EVENT_RE.sub(b"", body).replace(b": ping\n\n", b"")
+        if rest.strip(b"\n"):
+            r.fail(f"{tag}:garbled-event", f"{ctx}: unexpected bytes in the stream: {rest[:80]!r}")
+    else:
+        got = [int(x[5:]) for x in body.decode().split(";") if x]
+    if got != expected[: len(got)]:
+        r.fail(f"{tag}:delivery-order", f"{ctx}: delivered {got!r}, the producer's items are {expected!r}")
+    elif got != expected and run.exc is None:
+        r.fail(f"{tag}:lost-items", f"{ctx}: the server took {'everything' if close_after is None else f'{close_after} chunks'}: delivered {got!r}, expected {expected!r}")
+    if info["entered"] > 1 or info["finalized"] != info["entered"]:
+        r.fail(f"{tag}:producer-cleanup-count", f"{ctx}: generator try entered {info['entered']}x, finally ran {info['finalized']}x")
+    if case.get("endless") and info["made"] >= n:
+        # the producer stands for one that never ends: only the harness's cut-off stopped it
+        r.fail(f"{tag}:runaway-producer", f"{ctx}: the producer was driven through all of its {n} steps (the harness's cut-off for an endless producer) although the server closed the response after {close_after} chunks")
+    if undone:
+        r.fail(f"{tag}:pool-thread-busy", f"{ctx}: {undone} relay future(s) still running 2 s after the response was closed")
+    r.nontrivial = case["source"] != "gen" or blank_at is not None or bool(case.get("view"))
+    r.label(f"resp={case['resp']}", f"source={case['source']}", "closed-early" if close_after is not None and close_after < n else "consumed")
+    if blank_at is not None:
+        r.label("event-without-fields")
+    if case.get("view"):
+        r.label("returned-from-view")
+    if case.get("endless"):
+        r.label("endless-producer")
+    return r
+
+
+def _until_hangs(cases, counter, limit):
+    """Cost control for a tree that dead-locks: every hanging case costs a watchdog period and leaves a stuck thread
+    behind; once `limit` hangs are on record the verdict cannot change any more and the enumeration stops."""
+    for case in cases:
+        if len(counter) >= limit:
+            return
+        yield case
+
+
+def wsgi_sources_cases():
+    yield from _until_hangs(_wsgi_sources_cases(), _SOURCE_HANGS, 3)
+
+
+def _wsgi_sources_cases():
+    for resp in ("sse", "stream"):
+        for source in ("list", "tuple", "iter", "gen"):
+            for view in (False, True):
+                for n in (0, 1, 3, 4):
+                    for close_after in [None] + list(range(0, n + 2)):
+                        if view and source in ("tuple",):
+                            continue
+                        yield {"resp": resp, "source": source, "items": n, "close_after": close_after, "view": view}
+                        if source == "gen":
+                            yield {"resp": resp, "source": source, "items": n, "close_after": close_after, "view": view, "end": "raise"}
+    # a producer that never ends (cut off by the harness after ENDLESS_CUTOFF steps), closed by the server early; only
+    # for StreamResponse, whose producer runs inside next() (how far an event stream's relay thread runs ahead of a
+    # slow client is not fixed by the statement)
+    for view in (False, True):
+        for close_after in (0, 1, 3):
+            yield {"resp": "stream", "source": "gen", "items": ENDLESS_CUTOFF, "close_after": close_after, "view": view, "endless": True}
+    for source in ("list", "gen", "iter"):
+        for n, blank_at in ((1, 0), (3, 0), (3, 1), (3, 2), (4, 2)):
+            for close_after in [None] + list(range(0, n + 1)):
+                yield {"resp": "sse", "source": source, "items": n, "close_after": close_after, "view": False, "blank_at": blank_at}
+
+
+# ------------------------------------------------------------------------------------------
+# WSGI event stream: how long after the producer's step does close() come back
+
+
+LATENCY_SLACK = 0.5  # seconds of scheduling tolerance on top of the producer's own cleanup time
+
+
+def _latency_once(ping, cleanup, ahead):
+    import threading
+
+    gate, at_gate = threading.Event(), threading.Event()
+    stats = {"entered": 0, "finalized": 0}
+
+    def ev(i):
+        return {"id": str(i), "data": f"event-{i}"}
+
+    def producer():
+        stats["entered"] += 1
+        try:
+            yield ev(0)
+            if ahead:
+                yield ev(1)  # waits in the queue
+                yield ev(2)  # the relay thread blocks handing this one over
+            at_gate.set()
+            gate.wait(30)
+            yield ev(3)
+            gate.wait(30)
+            yield ev(4)
+        finally:
+            if cleanup:
+                time.sleep(cleanup)
+            stats["finalized"] += 1
+
+    pool, futures = _recording_pool()
+    cls = type("SSE", (W.SendEventResponse,), {"thread_pool": pool})
+    it = iter(cls(producer(), ping_interval=ping)(gw.make_environ(gw.areq()), lambda *a, **k: None))
+    out = {"latency": None, "hang": None, "exc": None}
+    try:
+        kind, first = _with_watchdog(lambda: _next_data(it), 10.0)
+        if kind != "ok" or first != b"id: 0\ndata: event-0\n\n":
+            out["hang"] = f"first next() gave {kind} {first!r}"
+            return out, stats, 0
+        if ahead:
+            time.sleep(0.05)  # settle: the relay is now blocked in put() with one event queued
+        elif not at_gate.wait(5):
+            out["hang"] = "the producer did not come back for its second step"
+            return out, stats, 0
+        box = {}
+
+        def closer():
+            box["t0"] = time.monotonic()
+            try:
+                it.close()
+            except BaseException as exc:  # noqa: BLE001
+                box["exc"] = exc
+            box["t1"] = time.monotonic()
+
+        t = threading.Thread(target=closer, daemon=True)
+        t.start()
+        if ahead:
+            t0 = None
+        else:
+            time.sleep(0.05)  # settle: close() is now waiting for the relay, which waits for the producer
+            t0 = time.monotonic()
+            gate.set()  # the producer's next step
+        t.join(10.0)
+        if t.is_alive():
+            out["hang"] = "close() did not return within 10 s of the producer's next step"
+        else:
+            out["latency"] = box["t1"] - (t0 if t0 is not None else box["t0"])
+            out["exc"] = box.get("exc")
+    finally:
+        gate.set()
+    deadline = time.monotonic() + 2.0
+    while time.monotonic() < deadline and any(not f.done() for f in futures):
+        time.sleep(0.005)
+    undone = sum(1 for f in futures if not f.done())
+    pool.shutdown(wait=False)
+    return out, stats, undone
+
+
+def oracle_wsgi_latency(case) -> Result:
+    """close() has to come back with the producer's next step (plus the producer's own cleanup time), whatever the ping
+    interval.  Wall-clock: a measurement above the tolerance is repeated (4 runs in all) and only counts when every run
+    is late, so that a loaded machine alone cannot produce a violation."""
+    r = Result()
+    ping, cleanup, ahead = case["ping"], case["cleanup"], case["ahead"]
+    ctx = f"{case!r}"
+    bound = cleanup + LATENCY_SLACK
+    seen = []
+    first = None
+    for attempt in range(4):
+        out, stats, undone = _latency_once(ping, cleanup, ahead)
+        if first is None:
+            first = (out, stats, undone)
+        if out["hang"] is not None:
+            break
+        seen.append(round(out["latency"], 3))
+        if out["latency"] <= bound:
+            break
+    out, stats, undone = first
+    if out["hang"] is not None:
+        _LATENCY_HANGS.append(1)
+        r.fail("C06:wsgi-latency:hang", f"{ctx}: {out['hang']}")
+        return r
+    if attempt:
+        r.label("latency-retry")
+    if min(seen) > bound:
+        r.fail(
+            "C06:wsgi-latency:late-close",
+            f"{ctx}: close() came back {seen!r} s after {'it was called (no producer step was needed)' if ahead else 'the producer took its next step'} in "
+            f"{len(seen)} runs out of {len(seen)}; the producer's cleanup takes {cleanup} s, tolerance {LATENCY_SLACK} s",
+        )
+    if out["exc"] is not None:
+        r.fail(f"C06:wsgi-latency:close-raised:{type(out['exc']).__name__}", f"{ctx}: {out['exc']!r}")
+    if stats["entered"] != 1 or stats["finalized"] != 1:
+        r.fail("C06:wsgi-latency:producer-cleanup-count", f"{ctx}: generator try entered {stats['entered']}x, finally ran {stats['finalized']}x")
+    if undone:
+        r.fail("C06:wsgi-latency:pool-thread-busy", f"{ctx}: {undone} relay future(s) still running 2 s after close() returned")
+    r.nontrivial = True
+    r.label(f"ping={ping}", f"cleanup={cleanup}", "producer-ahead" if ahead else "producer-mid-step")
+    return r
+
+
+def wsgi_latency_cases():
+    yield from _until_hangs(_wsgi_latency_cases(), _LATENCY_HANGS, 2)
+
+
+def _wsgi_latency_cases():
+    for ping in (30.0, 3.0, 0.5):
+        for cleanup in (0.0, 0.05, 0.2):
+            for ahead in (False, True):
+                yield {"ping": ping, "cleanup": cleanup, "ahead": ahead}
+
+
 def _next_data(it):
     while True:
         item = next(it)
@@ -439,11 +890,18 @@ SUBS = {
     "wsgi_pool": oracle_wsgi_pool,
     "asgi": oracle_asgi,
     "asgi_grid": oracle_asgi,
+    "asgi_sources": oracle_asgi,
+    "asgi_cleanup": oracle_asgi,
+    "asgi_cancel": oracle_asgi,
+    "asgi_slow_client": oracle_asgi,
+    "asgi_endless": oracle_asgi,
     "wsgi_sse": oracle_wsgi_sse,
     "wsgi_sse_ping": oracle_wsgi_sse,
     "wsgi_sse_long": oracle_wsgi_sse,
     "wsgi_sse_cleanup": oracle_wsgi_sse,
     "wsgi_stream": oracle_wsgi_stream,
+    "wsgi_sources": oracle_wsgi_sources,
+    "wsgi_latency": oracle_wsgi_latency,
 }
 
 # ------------------------------------------------------------------------------------------
@@ -463,16 +921,29 @@ def asgi_case(draw):
     else:
         D = draw(st.sampled_from([0.0, 0.25, 0.5, 0.75, 1.0, 1.25, 1.5, 2.0, 2.5, 3.0, 4.0, 6.0, total, max(total - 0.25, 0), total + 0.25, total / 2]))
         D = round(D * 4) / 4
-    return {
+    case = {
         "kind": kind,
         "items": n,
         "delays": delays,
-        "send_delay": draw(st.sampled_from([0, 0, 0.25, 0.5])),
+        "send_delay": draw(st.sampled_from([0, 0, 0.25, 0.5, 0.5, 0.75, 1.5])),
         "ping": draw(st.sampled_from([0.5, 1.0, 1.0, 3.0])),
         "disconnect_at": D,
         "raise_at": draw(st.one_of(st.none(), st.none(), st.integers(0, n))),
         "send_raises": draw(st.booleans()),
     }
+    # less common but legitimate: a producer object that is not a generator, cleanup code that takes time, an event
+    # without fields, the server cancelling the call instead of a disconnect
+    extra = draw(st.integers(0, 11))
+    if extra in (0, 1):
+        case["source"] = "iter"
+    if extra in (2, 3, 4):
+        case["cleanup"] = draw(st.sampled_from([0.25, 0.5, 1.0, 2.5]))
+    if extra in (4, 5) and "sse" in kind and n:
+        case["blank_at"] = draw(st.integers(0, n - 1))
+    if extra in (1, 3, 6, 7) and D is not None:
+        case["cancel_at"], case["disconnect_at"] = D, None
+        case["send_raises"] = False
+    return case
 
 
 def asgi_grid():
@@ -486,6 +957,104 @@ def asgi_grid():
                         yield {"kind": kind, "items": 4, "delays": delays, "send_delay": send_delay, "ping": 1.0, "disconnect_at": d,
                                "raise_at": raise_at, "send_raises": send_raises}
                         d += 0.25
+
+
+_PATTERNS = (([0, 0, 0, 0, 0], None), ([0.5, 0.5, 0.5, 0.5, 0.5], None), ([0.5, 1.5, 0, 2.0, 0.25], None), ([0.5, 0.5, 0.5, 0.5, 0.5], 2), ([0, 0.25, 0, 0, 0], 1))
+
+
+def _base(kind, delays, raise_at, **kw):
+    case = {"kind": kind, "items": 4, "delays": list(delays), "send_delay": 0, "ping": 1.0, "disconnect_at": None, "raise_at": raise_at, "send_raises": False}
+    case.update(kw)
+    return case
+
+
+def asgi_sources_cases():
+    """Producers that are not generators (an AsyncIterable object without aclose) and event streams that contain an
+    event without any field, with and without a disconnect."""
+    for kind in ("stream", "sse", "stream-view", "sse-view"):
+        for delays, raise_at in _PATTERNS[:4]:
+            for send_delay in (0, 0.25):
+                for D in (None, 0.0, 0.75, 1.25, 6.0):
+                    for send_raises in ((False, True) if D is not None else (False,)):
+                        yield _base(kind, delays, raise_at, send_delay=send_delay, disconnect_at=D, send_raises=send_raises, source="iter")
+        if "sse" in kind:
+            for source in ("gen", "iter"):
+                for blank_at in (0, 2, 3):
+                    for delays in ([0, 0, 0, 0, 0], [0.5, 0.5, 0.5, 0.5, 0.5], [0, 0, 1.5, 0, 0]):
+                        for D in (None, 1.25):
+                            yield _base(kind, delays, None, send_delay=0.25, disconnect_at=D, source=source, blank_at=blank_at)
+
+
+def asgi_cleanup_cases(quick):
+    """The producer's cleanup code (its finally) awaits: the call must take it in its stride - no task left behind."""
+    for cleanup in ((0.75,) if quick else (0.75, 2.0, 0.25)):
+        for kind in ("stream", "sse", "stream-view", "sse-view"):
+            for delays, raise_at in _PATTERNS[:4]:
+                total = sum(delays)
+                for send_raises in (False, True):
+                    for send_delay in (0, 0.25):
+                        if kind.endswith("-view") and (send_raises or send_delay):
+                            continue
+                        yield _base(kind, delays, raise_at, send_delay=send_delay, cleanup=cleanup)
+                        d = 0.0
+                        while d <= total + 1.5:
+                            yield _base(kind, delays, raise_at, send_delay=send_delay, disconnect_at=d, send_raises=send_raises, cleanup=cleanup)
+                            d += 0.25 if not quick or kind == "stream" or send_delay == 0 else 0.5
+
+
+    # cleanup code that takes long (5 s): nothing in the response may put a deadline on it
+    for kind in ("stream", "sse", "stream-view"):
+        for delays, raise_at in _PATTERNS[:2] + _PATTERNS[3:4]:
+            yield _base(kind, delays, raise_at, cleanup=5.0)
+            d = 0.0
+            while d <= sum(delays) + 1.0:
+                yield _base(kind, delays, raise_at, disconnect_at=d, cleanup=5.0)
+                yield _base(kind, delays, raise_at, cancel_at=d, cleanup=5.0)
+                d += 0.5
+
+
+def asgi_cancel_cases(quick):
+    """The server cancels the application task (its way of closing an ASGI response) at every instant of the grid."""
+    for kind in ("stream", "sse", "stream-view", "sse-view"):
+        for delays, raise_at in _PATTERNS:
+            total = sum(delays)
+            for send_delay in (0, 0.25, 0.5):
+                for cleanup in (0, 0.5):
+                    for source in ("gen", "iter"):
+                        if source == "iter" and (cleanup or kind.endswith("-view")):
+                            continue
+                        if quick and kind.endswith("-view") and (cleanup or send_delay == 0.25):
+                            continue
+                        c = 0.0
+                        while c <= total + 5 * send_delay + 0.5:
+                            yield _base(kind, delays, raise_at, send_delay=send_delay, cancel_at=c, cleanup=cleanup, source=source)
+                            c += 0.25
+
+
+def asgi_slow_client_cases():
+    """The client takes longer than one ping interval to accept an event (send slower than ping) while the producer is
+    ahead: nothing may be dropped, pings or not."""
+    for kind in ("sse", "sse-view", "stream"):
+        for ping in (0.5, 1.0):
+            for send_delay in (0.75, 1.5, 2.5):
+                for delays in ([0, 0, 0, 0, 0], [0.25, 0.25, 0.25, 0.25, 0.25], [0, 1.5, 0, 0, 2.0]):
+                    for D in (None, 1.0, 2.25, 4.0, 7.0):
+                        yield _base(kind, delays, None, send_delay=send_delay, ping=ping, disconnect_at=D)
+
+
+ENDLESS_CUTOFF = 3000
+
+
+def asgi_endless_cases():
+    """A producer that never ends and never waits (`while True: yield event`, the example of the class docstring),
+    represented by ENDLESS_CUTOFF steps without any delay; the client reads at its own pace and leaves early."""
+    for kind in ("sse", "sse-view", "stream"):
+        for send_delay in (0.25, 0.5):
+            for t in (0.0, 0.5, 1.0, 3.0):
+                yield {"kind": kind, "items": ENDLESS_CUTOFF, "delays": [], "send_delay": send_delay, "ping": 1.0, "disconnect_at": t,
+                       "raise_at": None, "send_raises": False, "endless": True}
+                yield {"kind": kind, "items": ENDLESS_CUTOFF, "delays": [], "send_delay": send_delay, "ping": 1.0, "disconnect_at": None,
+                       "raise_at": None, "send_raises": False, "endless": True, "cancel_at": t}
 
 
 def wsgi_stream_cases():
@@ -529,9 +1098,17 @@ def run(rec, only=None):
     rec.exhaustive["wsgi_sse_cleanup"] = True
     core.drive_cases(rec, "wsgi_pool", ({"busy": b, "consume": c} for b in (0, 9, 10, 12) for c in (0, 1, 3)), oracle_wsgi_pool)
     rec.exhaustive["wsgi_pool"] = True
+    core.drive_cases(rec, "wsgi_sources", wsgi_sources_cases(), oracle_wsgi_sources)
+    rec.exhaustive["wsgi_sources"] = len(_SOURCE_HANGS) < 3
+    core.drive_cases(rec, "wsgi_latency", wsgi_latency_cases(), oracle_wsgi_latency)
+    rec.exhaustive["wsgi_latency"] = len(_LATENCY_HANGS) < 2
     grid = list(asgi_grid())
     core.drive_cases(rec, "asgi_grid", grid, oracle_asgi)
     rec.exhaustive["asgi_grid"] = True
+    for sub, cases in (("asgi_sources", asgi_sources_cases()), ("asgi_cleanup", asgi_cleanup_cases(quick)), ("asgi_cancel", asgi_cancel_cases(quick)),
+                       ("asgi_slow_client", asgi_slow_client_cases()), ("asgi_endless", asgi_endless_cases())):
+        core.drive_cases(rec, sub, cases, oracle_asgi)
+        rec.exhaustive[sub] = True
     core.drive_hypothesis(rec, "asgi", asgi_case(), oracle_asgi, 1500 if quick else 40000)
     core.drive_hypothesis(rec, "wsgi_sse_long", long_schedule(), oracle_wsgi_sse, 150 if quick else 3000, seed_offset=1, shrink=False)
     rec.exhaustive["asgi"] = rec.exhaustive["wsgi_sse_long"] = False
